@@ -4,6 +4,7 @@ go 1.23
 
 require (
 	github.com/antchfx/xpath v1.1.11
+	github.com/jf-tech/go-corelib v0.0.14
 	github.com/jf-tech/omniparser v0.0.0
 	github.com/tkuchiki/go-timezone v0.2.0
 	golang.org/x/text v0.3.8
@@ -16,7 +17,6 @@ require (
 	github.com/google/pprof v0.0.0-20230207041349-798e818bf904 // indirect
 	github.com/google/uuid v1.1.2 // indirect
 	github.com/hashicorp/golang-lru v0.5.4 // indirect
-	github.com/jf-tech/go-corelib v0.0.14 // indirect
 	github.com/xeipuuv/gojsonpointer v0.0.0-20180127040702-4e3ac2762d5f // indirect
 	github.com/xeipuuv/gojsonreference v0.0.0-20180127040603-bd5ef7bd5415 // indirect
 	github.com/xeipuuv/gojsonschema v1.2.0 // indirect
